@@ -60,7 +60,7 @@ func vC14Call(w *bufio.Writer, ev string, fn func() error) {
 	fmt.Fprintf(w, "R %s\n", res)
 }
 
-var vC14Vals = []string{"", "max", "0", "-1", "1", "4096", "18446744073709551615", "18446744073709551616", "1e9", "x", " 5", "5 ", "0x10", "gold", "silver", "nosuch",
+var vC14Vals = []string{"", "max", "0", "-1", "1", "4096", "18446744073709551615", "18446744073709551616", "1e9", "x", " 5", "5 ", "0x10", "gold", "silver", "tiered", "nosuch",
 	"true", "{", "- a", "\x00", "9223372036854775807", "50%", "1G"}
 
 func vC14Ctr(rng *rand.Rand, name string) *api.Container {
@@ -122,7 +122,7 @@ func TestVerifC14Memtierd(t *testing.T) {
 	opt.runDir = t.TempDir()
 	prefixes := []string{"class", "memory.high", "memory.swap.max", "x", ""}
 	tr, fa := true, false
-	cfgs := []*pluginConfig{nil, {}, {Classes: []qosClass{{Name: "gold", AllowSwap: &tr}, {Name: "silver", AllowSwap: &fa}, {Name: "plain"}}}}
+	cfgs := []*pluginConfig{nil, {}, {Classes: []qosClass{{Name: "gold", AllowSwap: &tr}, {Name: "silver", AllowSwap: &fa}, {Name: "plain"}, {Name: "tiered", MemtierdConfig: "policy:\n  name: age\n"}}}}
 	mk := func() *plugin { return &plugin{ctrMemtierdEnv: map[string]*memtierdEnv{}} }
 	p := mk()
 	for i := 0; i < n; i++ {
